@@ -117,7 +117,7 @@ Exercised ==
           "swapfee_panic", "lossless_row", "lossless_giveback", "lossless_ratio1",
           "deploy_native_ok", "deploy_ibc_ok", "deploy_twice_rej", "deploy_unknown_rej",
           "conv_native_ok", "hook_forged_ignored", "hook_forged_rej", "upgrade_ok", "upgrade_rej",
-          "f12_shape", "fee_len_other"} :
+          "f12_shape", "fee_len_other", "issue_at_cap", "mint_room0_rej"} :
      CASE c = "issue_ok" -> ev.name = "Issue" /\ ev.ok
        [] c = "edit_ok" -> ev.name = "Edit" /\ ev.ok
        [] c = "edit_max_ok" -> ev.name = "Edit" /\ ev.ok /\ ev.max > 0
@@ -168,6 +168,11 @@ Exercised ==
        [] c = "upgrade_rej" -> ev.name = "Upgrade" /\ ~ev.ok
        [] c = "f12_shape" -> F12Shape(st)
        [] c = "fee_len_other" -> ev.name = "Issue" /\ ev.ok /\ Len(ev.sym) > 3
+       [] c = "issue_at_cap" -> ev.name = "Issue" /\ ev.ok /\ ev.sym \in DOMAIN st.tok
+                                /\ st.tok[ev.sym].mintable /\ st.tok[ev.sym].max = st.tok[ev.sym].initial
+                                /\ st.tok[ev.sym].initial > 0
+       [] c = "mint_room0_rej" -> ev.name = "Mint" /\ ~ev.ok /\ Apply(pre, ev).why = "exceeds_cap"
+                                  /\ pre.supply[ev.mu] = TokOf(pre, ev.mu).max * Pow10(TokOf(pre, ev.mu).scale)
        [] c = "lossless_row" -> ev.name = "LossLess" /\ ev.ok
        [] c = "lossless_giveback" -> ev.name = "LossLess" /\ ev.ok /\ ev.burn # ev.amt
        [] c = "lossless_ratio1" -> ev.name = "LossLess" /\ ev.ok /\ ev.rn = ev.rd /\ ev.burn # ev.amt}
